@@ -6,7 +6,7 @@
    posterior of the data set with the NaN observations deleted. *)
 From Coq Require Import Arith List.
 From GPV Require Import Base.LinAlg Base.Exec Models.C01_posterior Models.C16_missing
-  Proofs.C16_missing.
+  Proofs.C16_missing Models.C16_settings Proofs.C16_settings.
 
 (* the deleted data set's train covariance is the masked operator the code solves with *)
 Theorem c16_deleted_train_covar_is_masked :
@@ -146,6 +146,50 @@ Theorem c16_policy_order_irrelevant :
             (del_mean n KJ muJ Aoinv y).
 Proof. intros K. exact (@policy_order_irrelevant K). Qed.
 Print Assumptions c16_policy_order_irrelevant.
+
+(* HISTORIES OF CALLS UNDER CHANGING SETTINGS (Models/C16_settings.v): one eval-mode model object is
+   called any number of times under any of the policies 'ignore' (cs_policy = None; with NaN targets
+   it returns NaNs), 'mask', 'fill' and with fast_pred_var on or off, in any order; the state of the
+   prediction strategy ([pstate]: the per-policy _mean_cache memo, the 'ignore' entry, covar_cache)
+   is threaded through.  Whatever that history was - a first call under the default 'ignore'
+   included - a call under 'mask' or 'fill' returns a NaN-free mean equal to the deletion mean and
+   the deletion covariance. *)
+Theorem c16_call_after_any_history_is_deletion :
+  forall (K : Fld) n t KJ muJ S Ainv Afinv Aoinv (y : nvec) fv (h : list call_settings) (p : policy) (fpv : bool),
+    let A := train_covar KJ S in let ob := is_obs y in
+    is_inverse n A Ainv ->
+    is_inverse n (fill_kernel ob A) Afinv ->
+    is_inverse (nobs n ob) (masked n n ob ob A) Aoinv ->
+    let TT := Ksx n KJ in let tm := sub n 0 muJ in let r := offset muJ y in
+    let res := snd (call n KJ Ainv Aoinv Afinv TT tm y r fv
+                      (call_history n KJ Ainv Aoinv Afinv TT tm y r fv h)
+                      {| cs_policy := Some p; cs_fpv := fpv |}) in
+    (exists mean, fst res = Some mean /\ meq t 1 mean (del_mean n KJ muJ Aoinv y))
+    /\ meq t t (snd res) (del_cov n ob KJ Aoinv).
+Proof. intros K. exact (@call_after_history_is_deletion K). Qed.
+Print Assumptions c16_call_after_any_history_is_deletion.
+
+(* the covariance a call returns does not depend on the state of the prediction strategy *)
+Theorem c16_call_cov_stateless :
+  forall (K : Fld) n KJ Ainv Aoinv Afinv TT tm (y r : nvec) fv st st' s,
+    snd (snd (call n KJ Ainv Aoinv Afinv TT tm y r fv st s))
+    = snd (snd (call n KJ Ainv Aoinv Afinv TT tm y r fv st' s)).
+Proof. intros K. exact (@call_cov_stateless K). Qed.
+Print Assumptions c16_call_cov_stateless.
+
+(* a NaN mask for the covariance that is memoised at the FIRST call (without the policy in the key)
+   is NOT deletion: first call under 'ignore', then 'mask', on the witness data (4/5 vs 7/8).  A
+   statement about a reading the code must not have, not about [call]. *)
+Theorem c16_cov_mask_memoised_at_first_call_refuted :
+  exists (n t : nat) (KJ S Ainv Aoinv Afinv : @M QcF) (y : @nvec QcF) (p : policy),
+    is_inverse n (train_covar KJ S) Ainv /\
+    is_inverse n (fill_kernel (is_obs y) (train_covar KJ S)) Afinv /\
+    is_inverse (nobs n (is_obs y)) (masked n n (is_obs y) (is_obs y) (train_covar KJ S)) Aoinv /\
+    ~ meq t t (call_cov_memoised_mask n KJ Ainv Aoinv Afinv y
+                 {| cs_policy := None; cs_fpv := false |} {| cs_policy := Some p; cs_fpv := false |})
+              (del_cov n (is_obs y) KJ Aoinv).
+Proof. exact memoised_mask_differs. Qed.
+Print Assumptions c16_cov_mask_memoised_at_first_call_refuted.
 
 (* MLL under 'mask': quadratic form and determinant of the masked marginal are those of the
    deleted data set (so the un-normalised log marginal coincides) ... *)
